@@ -2,6 +2,7 @@
 # runall.sh [tier] : every check once on /repo, sequentially; summary line per check
 cd "$(dirname "$0")/.."
 TIER=${1:-quick}
+mkdir -p out
 for p in C01 C02 C03 C04 C05 C06 C07 C08 C09 C10 C11 C12 C13 C14 C15 C16 C17 C18 C19 C20; do
   ./check $p --tier $TIER > out/runall_$p.log 2>&1; rc=$?
   echo "$p rc=$rc $(grep -c '^KNOWN-FINDING' out/runall_$p.log) known :: $(grep -E '^VIOLATION|^MACHINERY' out/runall_$p.log | head -2 | tr '\n' ' ') $(tail -1 out/runall_$p.log | cut -c1-150)"
